@@ -32,7 +32,7 @@ ASSUMPTIONS = [
     "'replace' is only issued on qualitative features (renaming a numeric bound would change the partition)",
     "moving missing values that already sit inside another group is not issued (the API only groups leaders)",
 ]
-BUDGET = {"quick": 320, "thorough": 10000}
+BUDGET = {"quick": 640, "thorough": 10000}
 DEADLINE_S = {"quick": 230, "thorough": 3300}
 STR_NAN = "__NAN__"
 
@@ -258,7 +258,22 @@ def check_case(case) -> Outcome:
                     out.violate("replace-did-not-rename-the-label", f"{where}: after {desc} the group's label is {got!r}")
                     return out
 
-        # ---- labels / summary / JSON keep agreeing with transform
+        # ---- an edited ordered feature still transforms monotonically (C03's probe, after the edit)
+        if cfg["output_dtype"] == "float" and not categorical:
+            order_now = obj.values_orders[feat]
+            if quantitative:
+                finite = [float(l) for l in order_now if not isinstance(l, str) and l != float("inf")]
+                xs = sorted({p for b in finite for p in (b, float(np.nextafter(b, np.inf)), float(np.nextafter(b, -np.inf)))} | {-1e308, 1e308})
+            else:
+                xs = [v for v in spec["ranking"]]
+            probe = pd.concat([src] * len(xs), ignore_index=True)
+            probe[raw] = pd.Series(xs, dtype=float if quantitative else object)
+            pr = observe(obj.transform, probe)
+            if pr.ok:
+                labs = [l for l in pr.value[feat].tolist() if not is_missing(l)]
+                if any(b < a for a, b in zip(labs, labs[1:])):
+                    out.violate(f"after-edit:transform-not-monotone:{kindtag}", f"{where}: after {desc} labels along the order are {labs}")
+                    return out
         tr = observe(obj.transform, sample.X.copy())
         if not tr.ok:
             out.violate(f"transform-train-raised-after-edit:{tr.bucket()}", f"{where}: {tr.exc!r}")
